@@ -6779,6 +6779,19 @@ class EmitApi:
                 f = self.sorter(v, st[1][2], st[1][3][0])
                 self.mut.add(v)
                 out.append("let %s := %s %s" % (io_ident(v), f, io_ident(v)))
+            elif (k == "expr" and st[1][0] == "mcall" and st[1][2] == "sort_by_key" and len(st[1][3]) == 1
+                  and st[1][3][0][0] == "closure" and len(st[1][3][0][1]) == 1 and st[1][3][0][1][0][0] == "pvar"
+                  and st[1][3][0][2] == ("field", ("path", [st[1][3][0][1][0][1]]), "0")):
+                # `v.sort_by_key(|a| a.0)` (stable, ascending by the first component) = `v.sort_by(|a, b| a.0.cmp(&b.0))`
+                v = self.var(st[1][1], "the receiver of `.sort_by_key(..)`")
+                ety = self.res(self.env[v])
+                if not (isinstance(ety, tuple) and ety[0] == "list" and isinstance(self.res(ety[1]), tuple)
+                        and self.res(ety[1])[0] == "pair" and self.res(ety[1])[1] == "N"):
+                    fail("%s: `%s.sort_by_key(|a| a.0)` on a value of type `%s` (only a vector of pairs whose first component is the "
+                         "remembered index)" % (self.where, v, self.show(ety)))
+                self.notes.append("`%s.sort_by_key(|a| a.0)` (stable, ascending by the remembered index) is `ApiM.sortByIdx`" % v)
+                self.mut.add(v)
+                out.append("let %s := ApiM.sortByIdx %s" % (io_ident(v), io_ident(v)))
             elif k == "whilelet":
                 out += self.loop(st, later, True)
             elif k == "for":
